@@ -21,7 +21,7 @@ def run(ctx):
         backup.model_check(ctx, 3, [2, 1, 0], 1)
         backup.model_check(ctx, 2, [2, 2], 2)
     # items=400: shard files larger than the manifests, so that a size limit can hit the data only
-    configs = [dict(conc=2, blk=16), dict(conc=1, kv=True, mm=True, blk=64, items=400), dict(conc=2, delta=True, gcduring=True, blk=16)]
+    configs = [dict(conc=2, blk=16), dict(conc=1, kv=True, mm=True, blk=64, items=400), dict(conc=2, delta=True, gcduring=True, blk=16, writers=vlib.NCPU + 2)]   # more writers than CPUs: the delta manifests are the largest manifests
     if T:
         configs += [dict(conc=8, blk=0), dict(conc=2, delta=True, mm=True, blk=32), dict(conc=1, older=True, blk=16),
                     dict(conc=3, delta=True, gcduring=True, kv=True, blk=8)]
@@ -35,6 +35,8 @@ def run(ctx):
             extra.append("-gcduring")
         if o.get("older"):
             extra.append("-older")
+        if o.get("writers"):
+            extra += ["-writers", str(o["writers"])]
         seed = vlib.seed() * 100 + 50 + ci
         items = o.get("items", 30)
         # ---- crash points (strace)
